@@ -142,6 +142,14 @@ def run(repo, res):
             res.ob('C01-R5', '%s continuity' % cls, True, nontrivial=cls in (
                 'If', 'For', 'While', 'Try', 'With', 'ListComp', 'FunctionDef', 'ClassDef', 'Lambda'),
                 sample='%s: every child exit region is consumed, scope.flow == self.flow at exit' % cls)
+    dead, ncreated = R.dead_end_records(repo)
+    for (cls, hint), r in sorted(dead.items()):
+        res.check('C01-R5', '%s region `%s` leads nowhere' % (R.method_name(repo, cls), hint), False, r['line'][0], r['line'][1],
+                  'on %s shape `%s` the region `%s` created by the visit method is neither the region the construct ends in nor an ancestor '
+                  'of it: names bound there (a walrus in the expression visited there) are lost to the code after the construct'
+                  % (cls, r['variants'][0], hint))
+    res.ob('C01-R5', 'no created region is a dead end', not dead, sample='%d regions created by visit methods all lead to the final region' % ncreated)
+    res.count('created_regions', ncreated, floor=300)
     seen = set()
     nblocks = 0
     for r in R.block_records(repo):
